@@ -136,7 +136,7 @@ void values_case(vh::Case& c) {
   int parity = u < 4 ? 0 : u < 6 ? 1 : -1;
   bool allow_zero = r.chance(1, 2);
   c.log(show(g));
-  Gen d = gen(c, g, parity, allow_zero, 12, "diagram");
+  Gen d = gen(c, g, parity, allow_zero, (c.thorough && r.chance(1, 5)) ? 20 : 12, "diagram");
   const bool mixed = d.di.mixed_parity;
   const std::string cls = cls_of(mixed, d.di.zero);
   const size_t m = d.D.size();
@@ -145,37 +145,47 @@ void values_case(vh::Case& c) {
 
   c.log("construct(p, grid_min, grid_max, number_of_points)"); c.count("op.construct");
   Persistence_landscape_on_grid L(d.D, g.gmin, g.gmax(), g.N);
-  if (!check_grid_values(c, L, g, tab, m, m + 2, !mixed, no_skip, "grid.value", cls)) return;
+  // every block below is a pure query: a mismatch in one block does not invalidate the others, so all blocks run
+  bool ok = check_grid_values(c, L, g, tab, m, m + 2, !mixed, no_skip, "grid.value", cls);
 
+  ok = [&]() -> bool {
   c.log("vectorize");
   for (size_t k = 0; k < m + 2 && k < (size_t)g.N; ++k) {
     std::vector<double> v = L.vectorize((int)k);
     c.count("cmp.grid.vectorize");
     bool ok = v.size() == (size_t)g.N + 1;
     for (int i = 0; ok && i <= g.N; ++i) ok = c18::close(v[i], k < m ? tab[i][k] : 0.0, kValTol);
-    if (!ok) { c.violation("grid.vectorize", cls, "vectorize(" + vh::str(k) + ") = " + vh::vstr(v)); return; }
+    if (!ok) { c.violation("grid.vectorize", cls, "vectorize(" + vh::str(k) + ") = " + vh::vstr(v)); return false; }
   }
 
+    return true;
+  }() && ok;
+
+  ok = [&]() -> bool {
   if (!mixed) {
     c.log("integrals");
     double tot = 0, totp[4] = {0, 0, 0, 0};
     for (size_t k = 0; k < m + 2; ++k) {
       double want = k < m ? tab_integral_level(tab, g, k) : 0.0;
       tot += want;
-      if (!check_scalar(c, L.compute_integral_of_landscape((size_t)k), want, kIntTol, "grid.integral_level", cls, "integral of level " + vh::str(k))) return;
-      if (!check_scalar(c, L.project_to_R((int)k), want, kIntTol, "grid.project_to_R", cls, "project_to_R(" + vh::str(k) + ")")) return;
+      if (!check_scalar(c, L.compute_integral_of_landscape((size_t)k), want, kIntTol, "grid.integral_level", cls, "integral of level " + vh::str(k))) return false;
+      if (!check_scalar(c, L.project_to_R((int)k), want, kIntTol, "grid.project_to_R", cls, "project_to_R(" + vh::str(k) + ")")) return false;
       for (int p = 1; p <= 3; ++p) {
         double wp = k < m ? tab_integral_pow_level(tab, g, k, p) : 0.0;
         totp[p] += wp;
         if (!check_scalar(c, L.compute_integral_of_landscape((double)p, (size_t)k), wp, kIntTol, "grid.integral_p_level", cls + ",p=" + vh::str(p),
-                          "integral of power " + vh::str(p) + " of level " + vh::str(k))) return;
+                          "integral of power " + vh::str(p) + " of level " + vh::str(k))) return false;
       }
     }
-    if (!check_scalar(c, L.compute_integral_of_landscape(), tot, kIntTol, "grid.integral", cls, "compute_integral_of_landscape()")) return;
+    if (!check_scalar(c, L.compute_integral_of_landscape(), tot, kIntTol, "grid.integral", cls, "compute_integral_of_landscape()")) return false;
     for (int p = 1; p <= 3; ++p)
-      if (!check_scalar(c, L.compute_integral_of_landscape((double)p), totp[p], kIntTol, "grid.integral_p", cls + ",p=" + vh::str(p), "compute_integral_of_landscape(p)")) return;
+      if (!check_scalar(c, L.compute_integral_of_landscape((double)p), totp[p], kIntTol, "grid.integral_p", cls + ",p=" + vh::str(p), "compute_integral_of_landscape(p)")) return false;
   }
 
+    return true;
+  }() && ok;
+
+  ok = [&]() -> bool {
   // constructor keeping only the nl largest values per grid point
   if (m >= 1) {
     unsigned nl = 1 + (unsigned)r.below(m + 1);
@@ -185,10 +195,25 @@ void values_case(vh::Case& c) {
     if (deepest > nl) c.count("op.construct_limited_levels.truncating");
     Persistence_landscape_on_grid Lc(d.D, g.gmin, g.gmax(), g.N, nl);
     std::string s2 = cls + (nl == 1 ? ",nl=1" : nl == 2 ? ",nl=2" : ",nl>=3") + (deepest > nl ? ",truncating" : ",not_truncating");
-    if (!check_grid_values(c, Lc, g, tab, m, std::min<size_t>(nl, m), !mixed, no_skip, "grid.value_limited_levels", s2)) return;
+    if (!check_grid_values(c, Lc, g, tab, m, std::min<size_t>(nl, m), !mixed, no_skip, "grid.value_limited_levels", s2)) return false;
   }
-  if (nontrivial_diag(d.di)) c.nontrivial(vh::hash_str(vh::G().history));
+    return true;
+  }() && ok;
+
+  if (ok && nontrivial_diag(d.di)) c.nontrivial(vh::hash_str(vh::G().history));
   c.sample("{\"history\":\"" + vh::jesc(vh::G().history.substr(0, 600)) + "\"}");
+}
+
+// does some level of h stay (almost) constant and non-zero over a whole cell?  Only used to refine signatures: the
+// closed form used by compute_integral_of_landscape(double p, size_t level) treats such cells separately.
+bool has_flat_nonzero_cell(const Fn& h, const Grid& g) {
+  size_t nl = h.nlevels();
+  auto tab = grid_table(h, g, nl);
+  for (size_t k = 0; k < nl; ++k) for (int i = 0; i < g.N; ++i) {
+    double a = std::fabs(tab[i][k]), b = std::fabs(tab[i + 1][k]);
+    if (a != 0 && b != 0 && tab[i][k] * tab[i + 1][k] > 0 && std::fabs(a - b) <= 1e-6 * (a + b)) return true;
+  }
+  return false;
 }
 
 // ------------------------------------------------------------------------------------------------ grid_algebra
@@ -226,42 +251,45 @@ void algebra_case(vh::Case& c) {
   Persistence_landscape_on_grid L0(t.d[0].D, g.gmin, g.gmax(), g.N), L1(t.d[1].D, g.gmin, g.gmax(), g.N), L2(t.d[2].D, g.gmin, g.gmax(), g.N);
   Fn f0(t.d[0].D), f1(t.d[1].D), f2(t.d[2].D);
 
+  bool ok = true;   // sections are independent pure observations: all run, each stops at its first mismatch
   c.log("L0 + L1"); c.count("op.plus");
   Persistence_landscape_on_grid S = L0 + L1;
   Fn fs = lsdef::plus(f0, f1);
-  if (!check_result(c, S, fs, false, g, "grid.plus", cls)) return;
+  ok = check_result(c, S, fs, false, g, "grid.plus", cls) && ok;
   {
     auto tab = grid_table(fs, g, fs.nlevels());
     double w1 = 0, w2 = 0;
     for (size_t k = 0; k < fs.nlevels(); ++k) { w1 += tab_integral_level(tab, g, k); w2 += tab_integral_pow_level(tab, g, k, 2); }
-    if (!check_scalar(c, S.compute_integral_of_landscape(), w1, kIntTol, "grid.integral_of_result", cls + ",op=plus", "integral of L0+L1")) return;
-    if (!check_scalar(c, S.compute_integral_of_landscape(2.0), w2, kIntTol, "grid.integral_of_result", cls + ",op=plus,p=2", "integral of (L0+L1)^2")) return;
+    ok = check_scalar(c, S.compute_integral_of_landscape(), w1, kIntTol, "grid.integral_of_result", cls + ",op=plus", "integral of L0+L1") && ok;
+    bool fl = has_flat_nonzero_cell(fs, g);
+    if (fl) c.count("state.sum_has_flat_cell");
+    ok = check_scalar(c, S.compute_integral_of_landscape(2.0), w2, kIntTol, "grid.integral_of_result", cls + ",op=plus,p=2" + (fl ? ",flat_cell" : ""), "integral of (L0+L1)^2") && ok;
   }
 
   c.log("L0 - L1"); c.count("op.minus");
   Persistence_landscape_on_grid Df = L0 - L1;
   Fn fd = lsdef::minus(f0, f1);
-  if (!check_result(c, Df, fd, false, g, "grid.minus", cls)) return;
+  ok = check_result(c, Df, fd, false, g, "grid.minus", cls) && ok;
 
   double a = kScalars[r.below(10)], b = kScalars[r.below(10)];
   c.log("L0 * " + vh::str(a) + " ; " + vh::str(b) + " * L1"); c.count("op.times", 2);
   Persistence_landscape_on_grid M1 = L0 * a, M2 = b * L1;
-  if (!check_result(c, M1, lsdef::scaled(f0, a), false, g, "grid.times", cls)) return;
-  if (!check_result(c, M2, lsdef::scaled(f1, b), false, g, "grid.times", cls)) return;
+  ok = check_result(c, M1, lsdef::scaled(f0, a), false, g, "grid.times", cls) && ok;
+  ok = check_result(c, M2, lsdef::scaled(f1, b), false, g, "grid.times", cls) && ok;
 
   c.log("abs(L0 - L1)"); c.count("op.abs");
   Persistence_landscape_on_grid A = Df; A.abs();
-  if (!check_result(c, A, fd, true, g, "grid.abs", cls)) return;
+  ok = check_result(c, A, fd, true, g, "grid.abs", cls) && ok;
 
   static const double kDiv[] = {2.0, -4.0, 0.5, 1.0, 8.0};
   double q = kDiv[r.below(5)];
   c.log("T=L0; T+=L1; T-=L2; T*=" + vh::str(a) + "; T/=" + vh::str(q)); c.count("op.compound");
   Persistence_landscape_on_grid T = L0; T += L1; T -= L2; T *= a; T /= q;
   Fn ft = lsdef::scaled(lsdef::minus(lsdef::plus(f0, f1), f2), a / q);
-  if (!check_result(c, T, ft, false, g, "grid.compound_assign", cls)) return;
+  ok = check_result(c, T, ft, false, g, "grid.compound_assign", cls) && ok;
   c.log("abs(T)"); c.count("op.abs");
   T.abs();
-  if (!check_result(c, T, ft, true, g, "grid.abs", cls)) return;
+  ok = check_result(c, T, ft, true, g, "grid.abs", cls) && ok;
 
   int n = 1 + (int)r.below(5);
   std::vector<Persistence_landscape_on_grid*> ptrs; Fn fav; std::string lg = "average of";
@@ -271,9 +299,9 @@ void algebra_case(vh::Case& c) {
   Persistence_landscape_on_grid Av;
   if (r.chance(1, 2)) Av = L2;
   Av.compute_average(ptrs);
-  if (!check_result(c, Av, fav, false, g, "grid.average", cls + ",n=" + std::string(n == 1 ? "1" : n == 2 ? "2" : "3+"))) return;
+  ok = check_result(c, Av, fav, false, g, "grid.average", cls + ",n=" + std::string(n == 1 ? "1" : n == 2 ? "2" : "3+")) && ok;
 
-  if (nontrivial_diag(t.d[0].di) && nontrivial_diag(t.d[1].di)) c.nontrivial(vh::hash_str(vh::G().history));
+  if (ok && nontrivial_diag(t.d[0].di) && nontrivial_diag(t.d[1].di)) c.nontrivial(vh::hash_str(vh::G().history));
   c.sample("{\"history\":\"" + vh::jesc(vh::G().history.substr(0, 700)) + "\"}");
 }
 
@@ -300,8 +328,13 @@ void metric_case(vh::Case& c) {
     Fn fav; for (int j = 0; j < 3; ++j) fav.terms.push_back(lsdef::Term{1.0 / 3, &t.d[j].D});
     L[2] = Av; f[2] = fav; cls += ",with_average";
   }
-  bool cross[3][3];
-  for (int i = 0; i < 3; ++i) for (int j = 0; j < 3; ++j) cross[i][j] = (i != j) && crosses_between_grid_points(f[i], f[j], g);
+  bool cross[3][3], flat[3][3], flat_self[3], any_flat = false;
+  for (int i = 0; i < 3; ++i) for (int j = 0; j < 3; ++j) {
+    cross[i][j] = (i != j) && crosses_between_grid_points(f[i], f[j], g);
+    flat[i][j] = (i != j) && has_flat_nonzero_cell(lsdef::minus(f[i], f[j]), g);
+    any_flat = any_flat || flat[i][j];
+  }
+  for (int i = 0; i < 3; ++i) flat_self[i] = has_flat_nonzero_cell(f[i], g);
 
   bool ok = true;
   static const double ps[] = {1.0, kInf, 2.0, std::numeric_limits<double>::infinity()};
@@ -320,14 +353,15 @@ void metric_case(vh::Case& c) {
       if (i == j) { sec_ok = check_scalar(c, d[i][j], 0.0, kIntTol, "grid.distance_self_zero", sp, "distance(L" + vh::str(i) + ",L" + vh::str(i) + ")"); continue; }
       if (!sup && cross[i][j]) { c.count("skip.distance_levels_cross_between_grid_points"); continue; }
       double want = sup ? lsdef::distance_sup(f[i], f[j]) : lsdef::distance_p(f[i], f[j], (int)p);
-      sec_ok = check_scalar(c, d[i][j], want, kIntTol, "grid.distance", sp, "distance(L" + vh::str(i) + ",L" + vh::str(j) + ")");
+      if (p == 2.0 && flat[i][j]) c.count("state.distance_p2_difference_has_flat_cell");
+      sec_ok = check_scalar(c, d[i][j], want, kIntTol, "grid.distance", sp + (p == 2.0 && flat[i][j] ? ",flat_cell" : ""), "distance(L" + vh::str(i) + ",L" + vh::str(j) + ")");
     }
     for (int i = 0; i < 3 && sec_ok; ++i) for (int j = i + 1; j < 3 && sec_ok; ++j)
-      sec_ok = check_scalar(c, d[i][j], d[j][i], kIntTol, "grid.distance_symmetric", sp, "d(Li,Lj) vs d(Lj,Li)");
+      sec_ok = check_scalar(c, d[i][j], d[j][i], kIntTol, "grid.distance_symmetric", sp + (p == 2.0 && flat[i][j] ? ",flat_cell" : ""), "d(Li,Lj) vs d(Lj,Li)");
     for (int i = 0; i < 3 && sec_ok; ++i) for (int j = 0; j < 3 && sec_ok; ++j) for (int k = 0; k < 3 && sec_ok; ++k) {
       c.count("cmp.grid.triangle");
       if (!(d[i][k] <= d[i][j] + d[j][k] + kIntTol * std::max(1.0, d[i][k]))) {
-        c.violation("grid.triangle_inequality", sp, "d(" + vh::str(i) + "," + vh::str(k) + ")=" + vh::str(d[i][k]) + " > " + vh::str(d[i][j]) + " + " + vh::str(d[j][k]));
+        c.violation("grid.triangle_inequality", sp + (p == 2.0 && any_flat ? ",flat_cell" : ""), "d(" + vh::str(i) + "," + vh::str(k) + ")=" + vh::str(d[i][k]) + " > " + vh::str(d[i][j]) + " + " + vh::str(d[j][k]));
         sec_ok = false;
       }
     }
@@ -335,7 +369,7 @@ void metric_case(vh::Case& c) {
       c.log("compute_norm_of_landscape(p=" + std::string(pn[pi]) + ")");
       for (int i = 0; i < 3 && sec_ok; ++i) {
         double want = sup ? lsdef::norm_sup(f[i]) : lsdef::norm_p(f[i], (int)p);
-        sec_ok = check_scalar(c, L[i].compute_norm_of_landscape(p), want, kIntTol, "grid.norm", sp, "norm of L" + vh::str(i));
+        sec_ok = check_scalar(c, L[i].compute_norm_of_landscape(p), want, kIntTol, "grid.norm", sp + (p == 2.0 && flat_self[i] ? ",flat_cell" : ""), "norm of L" + vh::str(i));
       }
     }
     ok = ok && sec_ok;
